@@ -1,6 +1,7 @@
 CONSTANTS
   Chunks = 64
   FullFor = {}
+  FormerTree = FALSE
   Variants = {TRUE}
 INIT Init
 NEXT Next
